@@ -285,9 +285,10 @@ fn gen_plan_entries(t: &mut Tape, p_fail: u32, max_gates: usize, n: usize) -> Ve
 }
 
 fn retry_tag(t: &mut Tape, with_delay: bool) -> String {
-    let n = t.range(1, 3);
+    // an explicit budget of zero is a budget too (`@retry(0)` opts a scenario out of `--retry N`)
+    let n = if t.chance(1, 6) { 0 } else { t.range(1, 3) };
     let d = t.range(1, 4);
-    match (t.pick(2), with_delay) {
+    match (if n == 0 { 1 } else { t.pick(2) }, with_delay) {
         (0, false) => "retry".to_string(),
         (_, false) => format!("retry({n})"),
         (0, true) => format!("retry.after({d}ms)"),
